@@ -456,7 +456,9 @@ def spin_resolved_oracles(ck, sigbase, label, rep, terms, r1s, r2s, e_ref, n_mea
         t2 = np.einsum("ppqq->", r2s)
         if abs(t2 - nn1_mean) > 1e-6:
             ck.violation(sigbase + "/spin-resolved-trace-2rdm", "%s: sum_pq rdm2[p,p,q,q] = %.6f, <N(N-1)> = %.6f" % (label, t2.real, nn1_mean), rep, found_input=True)
-        if abs(n_var) < 1e-9:
+        # the diagonal of the 1-RDM is only measured for the number-operator terms present in the operator
+        diag = all((((p, 1), (p, 0)) in terms) for p in range(nso))
+        if abs(n_var) < 1e-9 and diag:
             pt = np.einsum("ppqq->p", r2s)
             if np.abs(pt - (n_mean - 1) * np.diag(r1s)).max() > 1e-6:
                 ck.violation(sigbase + "/spin-resolved-partial-trace", "%s: sum_q rdm2[p,p,q,q] != (N-1) rdm1[p,p] for a state with N = %.3f" % (label, n_mean), rep, found_input=True)
